@@ -604,6 +604,29 @@ func rulesC10(c *Ctx) {
 		}
 		c.Pin("fan-out sends in notifySessions", m, 1)
 	})
+	c.Rule("R-C10-9", "the id under which a POST's stream is registered is fresh in the session: servePOST stores the stream in c.streams without looking (a blind overwrite), so the id given to newStream must come from a source that cannot repeat the id of a stream still registered: crypto/rand, or a counter of the connection that only moves forward (it may be moved back only if it still holds the number being given back)", func() {
+		ns := c.FnObj(pM, "streamableServerConn", "newStream")
+		conn := c.P.LookupType(pM, "streamableServerConn")
+		n := 0
+		for _, call := range sp.CallsIn(sp.Body, ns, false) {
+			if len(call.Args) != 3 {
+				continue
+			}
+			n++
+			random, ctrs, other := c10idSources(sp, call.Args[2], conn, 0)
+			switch {
+			case len(ctrs) == 0 && len(other) == 0 && random:
+				c.Ok("servePOST:stream-id-fresh", sp, call, "the stream id is drawn from crypto/rand")
+			case len(ctrs) > 0 && len(other) == 0:
+				for _, ctr := range ctrs {
+					c10counterForward(c, ctr)
+				}
+			default:
+				c.Undecided("servePOST:stream-id-fresh", sp, call, "the stream id (%s) is neither drawn from crypto/rand nor derived from a counter of the connection; its freshness is not decided", exprStr(call.Args[2]))
+			}
+		}
+		c.Pin("newStream calls in servePOST", n, 1)
+	})
 	c.Import("R-C10-8", "with a shared in-memory event store, a message stored for one session is never filed under another: lists are reached only through the table keyed by session id, then stream id (no remembered last stream; every session's standalone stream has the same id)", "C20", "R-C20-8", nil)
 }
 
@@ -659,3 +682,118 @@ func ctxRoot(f *Func, e ast.Expr, depth int) (string, string) {
 }
 
 var _ = token.ADD
+
+// c10idSources follows the id expression of a new stream back through locals and conversions: is it drawn from
+// crypto/rand, which fields of the connection does it read (a counter), and what else does it depend on.
+func c10idSources(f *Func, e ast.Expr, conn *types.Named, depth int) (random bool, ctrs []*types.Var, other []ast.Expr) {
+	if e == nil || depth > 8 {
+		return false, nil, []ast.Expr{e}
+	}
+	merge := func(es ...ast.Expr) {
+		for _, x := range es {
+			r, cs, o := c10idSources(f, x, conn, depth+1)
+			random = random || r
+			ctrs = append(ctrs, cs...)
+			other = append(other, o...)
+		}
+	}
+	switch x := ast.Unparen(e).(type) {
+	case *ast.BasicLit:
+	case *ast.CallExpr:
+		if fn := f.Callee(x); fn != nil && fn.Pkg() != nil {
+			switch fn.Pkg().Path() {
+			case "crypto/rand":
+				return true, nil, nil
+			case "strconv", "fmt":
+				merge(x.Args...) // formatting of the operands
+				return
+			}
+		}
+		if tv, ok := f.Info().Types[x.Fun]; ok && tv.IsType() && len(x.Args) == 1 {
+			merge(x.Args[0]) // conversion
+			return
+		}
+		other = append(other, x)
+	case *ast.BinaryExpr:
+		merge(x.X, x.Y)
+	case *ast.SelectorExpr:
+		if v, ok := f.ObjOf(x).(*types.Var); ok && v.IsField() && namedOf(f.TypeOf(x.X)) == conn {
+			if b, isB := v.Type().Underlying().(*types.Basic); isB && b.Info()&types.IsInteger != 0 {
+				return false, []*types.Var{v}, nil
+			}
+		}
+		other = append(other, x)
+	case *ast.Ident:
+		obj := f.ObjOf(x)
+		if tv, ok := f.Info().Types[x]; ok && tv.Value != nil {
+			return
+		}
+		v, isV := obj.(*types.Var)
+		if !isV || v.IsField() {
+			other = append(other, x)
+			return
+		}
+		found := false
+		for _, w := range Writes(f.Root().Body, true) {
+			if f.ObjOf(w.LHS) != obj {
+				continue
+			}
+			if w.RHS == nil {
+				if _, isSpec := w.Stmt.(*ast.ValueSpec); isSpec {
+					continue
+				}
+				other = append(other, x)
+				found = true
+				continue
+			}
+			found = true
+			merge(w.RHS)
+		}
+		if !found {
+			other = append(other, x) // a parameter
+		}
+	default:
+		other = append(other, x)
+	}
+	return
+}
+
+// c10counterForward: every write of the counter that names streams is an increment under c.mu, or — the only way
+// back — an assignment made while the counter is known to equal a value compared with in the guard (nobody has drawn
+// a later number since).
+func c10counterForward(c *Ctx, ctr *types.Var) {
+	n := 0
+	for _, f := range c.funcsWithLits(pM) {
+		for _, w := range f.FieldWrites(f.Body, ctr, false) {
+			n++
+			key := "stream-counter:" + f.Root().Name() + "#" + itoa(n)
+			held := f.heldLocal(w)[lkConn]
+			forward := false
+			switch st := w.(type) {
+			case *ast.IncDecStmt:
+				forward = st.Tok == token.INC
+			case *ast.AssignStmt:
+				if st.Tok == token.ADD_ASSIGN && len(st.Rhs) == 1 {
+					if v, ok := f.ConstInt(st.Rhs[0]); ok && v > 0 {
+						forward = true
+					}
+				}
+			}
+			if forward {
+				c.Check(held, key+":increment-under-lock", f, w, "the counter %s is advanced under c.mu", ctr.Name())
+				continue
+			}
+			g := f.Graph()
+			guards := g.GuardsAt(g.VertexOf(w))
+			unchanged := hasAtom(guards, func(a Atom) bool {
+				x, y, op, ok := binaryCmp(a.E)
+				if !ok {
+					return false
+				}
+				is := f.IsField(x, ctr) || f.IsField(y, ctr)
+				return is && ((op == token.EQL && a.Val) || (op == token.NEQ && !a.Val))
+			})
+			c.Check(held && unchanged, key+":only-forward", f, w, "the counter %s that names the streams of a session is set to another value only while it is known (by a comparison in the same critical section) to still hold the number being given back; an unconditional step back re-issues a number a later POST has drawn in the meantime, and that POST's stream — still registered, its requests in flight — is overwritten in c.streams by the next one (guards: %s)", ctr.Name(), atomsString(guards))
+		}
+	}
+}
